@@ -200,15 +200,22 @@ def naming_rule(prog: Program, rep, RID: str):
     # starts -> [0], ends -> [1]
     for m, idx, what in (("get_expanded_additional_starts", 0, ".0 (entry)"), ("get_expanded_additional_ends", 1, ".1 (exit)")):
         f = prog.own_method(cname, m)
-        rets = [r for r in walk_no_nested(f.node) if isinstance(r, ast.Return) and r.value is not None]
-        ok = False
-        for r in rets:
-            for n in ast.walk(r.value):
-                if isinstance(n, ast.Subscript) and isinstance(n.value, ast.Call) and (dotted(n.value.func) or "").endswith("get_expanded_edge") and \
-                        isinstance(n.slice, ast.Constant) and n.slice.value == idx:
-                    ok = True
+        # which component of get_expanded_edge(node) reaches the result: `call[i]`, or `a, b = call` followed by a use of a / b
+        used = set()
+        for n in ast.walk(f.node):
+            if isinstance(n, ast.Subscript) and isinstance(n.value, ast.Call) and (dotted(n.value.func) or "").endswith("get_expanded_edge") and \
+                    isinstance(n.slice, ast.Constant) and isinstance(n.slice.value, int):
+                used.add(n.slice.value)
+            if isinstance(n, ast.Assign) and isinstance(n.value, ast.Call) and (dotted(n.value.func) or "").endswith("get_expanded_edge") and \
+                    len(n.targets) == 1 and isinstance(n.targets[0], ast.Tuple) and len(n.targets[0].elts) == 2 and all(isinstance(e, ast.Name) for e in n.targets[0].elts):
+                names = [e.id for e in n.targets[0].elts]
+                for pos, nm_ in enumerate(names):
+                    if any(isinstance(x, ast.Name) and x.id == nm_ and isinstance(x.ctx, ast.Load) for x in ast.walk(f.node)):
+                        used.add(pos)
         key = f"{cname}.{m}:endpoint"
-        if ok:
+        if not used:
+            raise AnalysisError(f"{cname}.{m}: cannot tell which endpoint of get_expanded_edge(node) is returned")
+        if used == {idx}:
             rep.ok(RID, key, f"maps each node to its {what} endpoint", f.loc())
         else:
             rep.violation(RID, key, f"does not map each node to endpoint [{idx}] = {what} of its expanded edge: a path could "
@@ -315,7 +322,20 @@ def naming_rule(prog: Program, rep, RID: str):
     for m in ("get_expanded_additional_starts", "get_expanded_additional_ends"):
         f = prog.own_method(cname, m)
         key = f"{cname}.{m}:total"
-        comps = [n for r in walk_no_nested(f.node) if isinstance(r, ast.Return) and r.value is not None for n in ast.walk(r.value) if isinstance(n, ast.ListComp)]
+        from sa.mir import comprehensionise as _cz
+        from rules.common import all_local_defs as _ald11
+        cbody = ast.Module(body=_cz(f.node.body), type_ignores=[])
+        cdefs = {}
+        for st_ in ast.walk(cbody):
+            if isinstance(st_, ast.Assign) and len(st_.targets) == 1 and isinstance(st_.targets[0], ast.Name):
+                cdefs.setdefault(st_.targets[0].id, []).append(st_.value)
+        comps = []
+        for r in walk_no_nested(cbody):
+            if isinstance(r, ast.Return) and r.value is not None:
+                v_ = r.value
+                if isinstance(v_, ast.Name) and len(cdefs.get(v_.id, [])) == 1:     # `X = [...]; return X` (also: an accumulator loop written as a comprehension)
+                    v_ = cdefs[v_.id][0]
+                comps += [n for n in ast.walk(v_) if isinstance(n, ast.ListComp)]
         params = [a.arg for a in f.node.args.args[1:]]
         if len(comps) == 1 and len(comps[0].generators) == 1 and not comps[0].generators[0].ifs and norm(comps[0].generators[0].iter) in params:
             rep.ok(RID, key, "unfiltered comprehension over the whole user list", f.loc())
